@@ -38,6 +38,21 @@ func (x *Exec) errMsg(ev ErrVal) StrVal {
 // hasAffix: strings.HasPrefix / HasSuffix as predicates of the two contents, with their defining facts.
 func (x *Exec) hasAffix(s, p StrVal, suffix bool) *Term {
 	o := x.o
+	if n, ok := p.Len.ConstInt64(); ok && n >= 0 && n <= 64 {
+		// an affix of known length: the comparison written out byte by byte (no quantifier; any mode)
+		base := o.Idx(0)
+		if suffix {
+			base = o.IdxSub(s.Len, p.Len)
+		}
+		cs := []*Term{o.IdxLe(p.Len, s.Len)}
+		for i := int64(0); i < n; i++ {
+			cs = append(cs, o.Eq(o.SelByte(s.Arr, o.IdxAdd(s.Off, o.IdxAdd(base, o.Idx(i)))), o.SelByte(p.Arr, o.IdxAdd(p.Off, o.Idx(i)))))
+		}
+		return o.And(cs...)
+	}
+	if o.M.BV {
+		x.fail("HasPrefix / HasSuffix with an affix of unknown length needs `mode int`")
+	}
 	name := "seq.hasprefix"
 	if suffix {
 		name = "seq.hassuffix"
@@ -135,11 +150,9 @@ func init() {
 		return sl
 	}
 	extSchemas["strings.HasPrefix"] = func(x *Exec, st *State, fn *ssa.Function, args []Val, c *ssa.CallCommon) Val {
-		needInt(x)
 		return x.hasAffix(args[0].(StrVal), args[1].(StrVal), false)
 	}
 	extSchemas["strings.HasSuffix"] = func(x *Exec, st *State, fn *ssa.Function, args []Val, c *ssa.CallCommon) Val {
-		needInt(x)
 		return x.hasAffix(args[0].(StrVal), args[1].(StrVal), true)
 	}
 	// regexp.MatchString(pattern, s): (matched, err); err == nil iff the pattern compiles; matched only then
@@ -225,4 +238,28 @@ func (x *Exec) objectsAreEqual(st *State, a, b Val) *Term {
 	x.callSeq++
 	x.note("assert.Equal on %T values: reflect.DeepEqual is not modelled, the outcome is arbitrary", pa)
 	return o.Fresh(fmt.Sprintf("deepequal%d", x.callSeq), BoolSort)
+}
+
+// A few more library functions that routine refactorings reach for (exact contracts over the byte contents).
+func init() {
+	view := func(x *Exec, st *State, v Val) StrVal { return x.seqView(st, v) }
+	extSchemas["bytes.Equal"] = func(x *Exec, st *State, fn *ssa.Function, args []Val, c *ssa.CallCommon) Val {
+		return x.seqEq(view(x, st, args[0]), view(x, st, args[1]))
+	}
+	extSchemas["bytes.HasPrefix"] = func(x *Exec, st *State, fn *ssa.Function, args []Val, c *ssa.CallCommon) Val {
+		return x.hasAffix(view(x, st, args[0]), view(x, st, args[1]), false)
+	}
+	extSchemas["bytes.HasSuffix"] = func(x *Exec, st *State, fn *ssa.Function, args []Val, c *ssa.CallCommon) Val {
+		return x.hasAffix(view(x, st, args[0]), view(x, st, args[1]), true)
+	}
+	// strings.TrimPrefix(s, p): s without its leading p when it has one, else s
+	extSchemas["strings.TrimPrefix"] = func(x *Exec, st *State, fn *ssa.Function, args []Val, c *ssa.CallCommon) Val {
+		o := x.o
+		if o.M.BV {
+			x.fail("strings.TrimPrefix needs `mode int`")
+		}
+		s, p := args[0].(StrVal), args[1].(StrVal)
+		has := x.hasAffix(s, p, false)
+		return StrVal{Arr: s.Arr, Off: o.Ite(has, o.Add(s.Off, p.Len), s.Off), Len: o.Ite(has, o.Sub(s.Len, p.Len), s.Len)}
+	}
 }
